@@ -345,6 +345,19 @@ pub fn search(suite: &str, a: &[&str]) -> Option<String> {
             if rn != Point::new(x + n * font.character_size.width as i32, y) { return Some(format!("FAIL next position {:?}", rn)); }
             format!("OK {}", nat.map.len())
         }
+        // p_c14_codepage <MAPPING> <n: index codepoint index codepoint ...>: the glyph index of every character the
+        // standard code page defines (reference = an independent codec table supplied by the generator)
+        "p_c14_codepage" => {
+            let m = match Mapping::iter().find(|m| m.mime() == a[0]) { Some(m) => m.glyph_mapping(), None => return Some("FAIL no such mapping".into()) };
+            let (pairs, _) = parse_list(a, 1);
+            for pr in pairs.chunks(2) {
+                let c = char::from_u32(pr[1] as u32).unwrap();
+                if m.index(c) != pr[0] as usize || !m.contains(c) {
+                    return Some(format!("FAIL {}: code page position {} is {:?} (U+{:04X}) but its glyph index is {}", a[0], pr[0], c, pr[1], m.index(c)));
+                }
+            }
+            format!("OK {}", pairs.len() / 2)
+        }
         // p_c14_synth <same arguments as c14_ds>: custom fonts (spacing, any atlas row length) against the set-theoretic reference
         "p_c14_synth" => {
             let (spec, k) = parse_font(a);
